@@ -754,10 +754,19 @@ def c13_gen(r, tier):
            "docs": [enc({"cfg": {"limits": {"max": "10"}, "max": "3"}}), enc({"cfg": [1]})]}
     yield {"schema": {"rules": [deep]}, "add": [{"schema": {"rules": [sub]}, "root": {"parts": [{"$prim": "cfg"}, {"$prim": "limits"}]}}],
            "docs": [enc({"cfg": {"limits": {"max": "10"}}}), enc({"cfg": {"limits": {"max": "x"}}}), enc({"cfg": {"limits": {"max": 11}}})]}
+    # the same rule more than once (given twice, or one sub-schema mounted twice): a schema is a list of rules, not a set
+    items = {"path": {"parts": [{"$prim": "items"}, {"$p": "list"}]}, "cond": G.leaf("Value", "greater_than", 1), "cast": {"str": "int"}}
+    yield {"schema": {"rules": [items, items]}, "docs": [enc({"items": ["5", "0", 3, 1]}), enc({"items": []})]}
+    yield {"schema": {"rules": [top]}, "add": [{"schema": {"rules": [sub]}, "root": {"parts": [{"$prim": "cfg"}]}},
+                                               {"schema": {"rules": [sub]}, "root": {"parts": [{"$prim": "cfg"}]}}],
+           "docs": [enc({"cfg": {"max": "3"}}), enc({"cfg": {"max": "x"}})]}
     for _ in range(n):
         d = G.gen_doc(r, 3)
         rules = []
         for _ in range(r.randint(1, 3)):
+            if rules and r.random() < 0.15:
+                rules.append(copy.deepcopy(r.choice(rules)))
+                continue
             c = _c11_cond(r, r.randint(0, 2))
             if O.cond_kinds(c) - {"value"}:
                 continue
@@ -1083,6 +1092,19 @@ def _path_arg(r, d):
 @cases("C17", "path-arguments")
 def c17_gen(r, tier):
     n = 300 if tier == "quick" else 4000
+    # directed: the selected node *equals* the argument once the nested path is resolved (random documents almost never do,
+    # and an unresolved path object then goes unnoticed because both sides are simply unequal)
+    pa = {"$path": {"parts": [{"$prim": "a"}]}}
+    for doc, at, arg, tag in (
+            ({"a": 1, "b": {"x": 1}}, "b", {"x": pa}, "nested-mapping"),
+            ({"a": 1, "b": {"x": 1, "y": [1, 2]}}, "b", {"x": pa, "y": [pa, 2]}, "nested-mapping-list"),
+            ({"a": 1, "b": [1, 7]}, "b", [pa, 7], "nested-list"),
+            ({"a": 1, "b": [[1], 7]}, "b", [[pa], 7], "nested-list-list"),
+            ({"a": 1, "b": {"k": {"x": 1}}}, "b", {"k": {"x": pa}}, "nested-mapping-mapping"),
+            ({"a": 1, "b": {"x": 2}}, "b", {"x": pa}, "nested-mapping")):
+        rule = {"path": {"parts": [{"$prim": at}]}, "cond": G.leaf("Value", "equal_to", arg)}
+        yield {"rule": rule, "doc": enc(doc), "tag": tag}
+        yield {"rule": {"path": {"parts": [{"$prim": at}]}, "cond": G.leaf("Value", "not_equal_to", arg)}, "doc": enc(doc), "tag": tag}
     for _ in range(n):
         d = G.gen_doc(r, 3)
         x = r.random()
